@@ -189,13 +189,16 @@ def parse_spec(path):
             continue
         if cur_fn is None:
             raise ExtractError("%s:%d clause outside @fn: %s" % (path, ln, s))
-        if s.startswith("hint "):
+        if s.startswith("hint ") or s.startswith("ghostlet "):
+            raw = s.startswith("ghostlet ")
+            if raw:
+                s = "hint " + s[len("ghostlet "):]
             m = re.match(r'^hint\s+(first|last|loop@(\d+)|loopend@(\d+)|after\s+"((?:[^"\\]|\\.)*)"|before\s+"((?:[^"\\]|\\.)*)")\s*:\s*(.*)$', s)
             if not m:
                 raise ExtractError("%s:%d bad hint" % (path, ln))
             where = m.group(1).split()[0].split("@")[0]
             arg = m.group(2) or m.group(3) or m.group(4) or m.group(5)
-            h = {"where": where, "arg": arg, "text": expand_short(m.group(6)), "line": ln}
+            h = {"where": where, "arg": arg, "text": expand_short(m.group(6)), "line": ln, "raw": raw}
             cur_fn.hints.append(h)
             last_clause = h
             continue
@@ -654,6 +657,7 @@ class Gen:
                     k = j + 1
                     end = pair[j]
                     expect_field = True
+                    adepth = 0
                     while k < end:
                         tk = toks[k]
                         if expect_field:
@@ -663,10 +667,16 @@ class Gen:
                             if k < end and tk.text != "pub":
                                 ins.append(tk.start)
                             expect_field = False
-                        if tk.text in "([{<" and tk.text != "<":
+                        if tk.text in ("(", "[", "{"):
                             k = pair[k] + 1
                             continue
-                        if tk.text == ",":
+                        if tk.text == "<":
+                            adepth += 1
+                        elif tk.text == ">":
+                            adepth -= 1
+                        elif tk.text == ">>":
+                            adepth -= 2
+                        if tk.text == "," and adepth == 0:
                             expect_field = True
                         k += 1
                     break
@@ -868,7 +878,10 @@ class Gen:
                         raise ExtractError("lost anchor: hint anchor %r occurs %d times in %s" % (pat, cnt, qual))
                     p = body.index(pat)
                     pos = p + len(pat) if h["where"] == "after" else p
-                inserts.append((pos, 1, [("proof { " + txt + " }", "%s/hint/L%d" % (qual, h["line"]))], "line"))
+                if h.get("raw"):
+                    inserts.append((pos, 1, [(txt, None)], "line"))
+                else:
+                    inserts.append((pos, 1, [("proof { " + txt + " }", "%s/hint/L%d" % (qual, h["line"]))], "line"))
         # apply rewrites to the body text *before* computing positions? positions are on original
         # text; rewrites are applied per segment afterwards (they never span an insertion point).
         inserts.sort(key=lambda x: (x[0], x[1]))
@@ -1037,7 +1050,8 @@ class Gen:
                     raise ExtractError("lost anchor: fn %s in impl `%s` (%s)" % (c.arg, sec.arg, sf.rel))
                 if sec.opts.get("as"):
                     ty = [x for x in subs if x.kind == "type" and x.name == "Item"]
-                    if ty:
+                    fn_src = sf.text[toks[cand[0].vis_lo].start:toks[cand[0].hi - 1].end]
+                    if ty and "Self::Item" in fn_src:
                         tt = sf.text[toks[ty[0].kw].start:toks[ty[0].hi - 1].end]
                         item_ty = tt.split("=", 1)[1].rstrip(";").strip()
                         if c.fn is None:
